@@ -159,6 +159,27 @@ UB_FLAGS = ["--signed-overflow-check", "--undefined-shift-check", "--div-by-zero
 
 
 def run_job(ctx, job):
+    if getattr(job, "static_fn", None):
+        t = time.time()
+        try:
+            res = job.static_fn(ctx, job)     # list of (description, ok, detail)
+        except Undecided as e:
+            job.status, job.reason = "undecided", str(e)
+            return job
+        for desc, ok, detail in res:
+            p = dict(name="static", description="OBL " + desc, status="SUCCESS" if ok else "FAILURE", line=None, file=None,
+                     function=None, canary=False, detail=detail)
+            if not ok:
+                p["trace"] = None
+                job.failed.append(p)
+            job.props.append(p)
+        job.canaries_failed = 1
+        job.seconds = time.time() - t
+        job.cmds.append(job.info.get("static_cmd", "static check"))
+        job.status = "fail" if job.failed else ("ok" if job.props else "undecided")
+        if not job.props:
+            job.reason = "static check produced no facts"
+        return job
     d = ctx.path("jobs", re.sub(r"[^A-Za-z0-9_.-]", "_", job.name), "x")
     d = os.path.dirname(d)
     default_to = 150 if ctx.tier == "quick" else 900
@@ -264,6 +285,7 @@ def run_job(ctx, job):
     if nobody:
         job.status, job.reason = "undecided", "no body for function(s): %s" % ",".join(nobody)
         return job
+    unknown = []
     for r in results:
         desc = r.get("description", "")
         loc = r.get("sourceLocation", {})
@@ -279,13 +301,13 @@ def run_job(ctx, job):
                 p["trace"] = r.get("trace")
                 job.failed.append(p)
             elif p["status"] != "SUCCESS":
-                job.status, job.reason = "undecided", "property %s status %s" % (p["name"], p["status"])
-                job.props.append(p)
-                return job
+                unknown.append(p)
         job.props.append(p)
     n = len([p for p in job.props if not p["canary"]])
     if job.failed:
-        job.status = "fail"
+        job.status = "fail"       # UNKNOWN statuses next to a FAILURE are its consequences (CBMC assumes a failed check afterwards)
+    elif unknown:
+        job.status, job.reason = "undecided", "property %s status %s" % (unknown[0]["name"], unknown[0]["status"])
     elif n == 0:
         job.status, job.reason = "undecided", "zero obligations generated"
     elif job.canaries_failed < job.min_canaries:
@@ -455,9 +477,10 @@ def run_property(ctx, make_jobs, meta):
     samples = []
     bounded_list = []
     for j in jobs:
-        k = [p for p in j.props if not p["canary"]]
+        kf = set(o for o, _w in known_hits)
+        k = [p for p in j.props if not p["canary"] and obligation_id(j, p) not in kf]
         ok = [p for p in k if p["status"] == "SUCCESS"]
-        be = {"sat": "cbmc/minisat", "z3": "cbmc/z3", "cvc5": "cbmc/cvc5"}[j.solver]
+        be = {"sat": "cbmc/minisat", "z3": "cbmc/z3", "cvc5": "cbmc/cvc5", "static": "static fact (gcc -E / text)"}[j.solver]
         b = backends.setdefault(be, dict(jobs=0, obligations=0, discharged=0, solver_seconds=0.0))
         b["jobs"] += 1
         b["obligations"] += len(k)
